@@ -24,7 +24,11 @@ enum Status {
 }
 
 struct St {
+    /// the worker the controller is currently waiting for (None = pick the next one)
     turn: Option<usize>,
+    /// per-worker grant: set by the controller, consumed by the worker. A grant survives the
+    /// worker being declared blocked, so a worker that is merely slow to wake still runs.
+    granted: Vec<bool>,
     status: Vec<Status>,
     trace: Vec<(usize, &'static str)>,
     blocked_events: usize,
@@ -54,9 +58,10 @@ fn on_yield(site: &'static str) {
         st.turn = None;
     }
     sh.cv.notify_all();
-    while st.turn != Some(i) {
+    while !st.granted[i] {
         st = sh.cv.wait(st).unwrap_or_else(|e| e.into_inner());
     }
+    st.granted[i] = false;
     st.status[i] = Status::Running;
 }
 
@@ -109,6 +114,7 @@ pub fn run<'a>(
     let sh = Arc::new(Shared {
         m: Mutex::new(St {
             turn: None,
+            granted: vec![false; n],
             status: vec![Status::Parked; n],
             trace: Vec::new(),
             blocked_events: 0,
@@ -128,9 +134,10 @@ pub fn run<'a>(
                     WORKER.with(|w| *w.borrow_mut() = Some((sh.clone(), i)));
                     {
                         let mut st = sh.m.lock().unwrap_or_else(|e| e.into_inner());
-                        while st.turn != Some(i) {
+                        while !st.granted[i] {
                             st = sh.cv.wait(st).unwrap_or_else(|e| e.into_inner());
                         }
+                        st.granted[i] = false;
                         st.status[i] = Status::Running;
                     }
                     let r = std::panic::catch_unwind(std::panic::AssertUnwindSafe(script));
@@ -180,6 +187,13 @@ pub fn run<'a>(
                     && !st.status.iter().any(|s| *s == Status::Parked)
                     && !st.status.iter().all(|s| *s == Status::Done)
                 {
+                    eprintln!(
+                        "nv sched: no progress for 20 s: status={:?} turn={:?} blocked_events={} last trace={:?}",
+                        st.status,
+                        st.turn,
+                        st.blocked_events,
+                        &st.trace[st.trace.len().saturating_sub(8)..]
+                    );
                     deadlocked = true;
                     break;
                 }
@@ -193,6 +207,7 @@ pub fn run<'a>(
                 runnable[0]
             };
             st.turn = Some(idx);
+            st.granted[idx] = true;
             st.status[idx] = Status::Running;
             sh.cv.notify_all();
         }
